@@ -152,21 +152,7 @@ class FileSplicer:
                 self.ed.replace(src.t(k).start, src.t(k + len(pat) - 1).end, rep); applied.append(rid)
 
         # ---- N2: de-async
-        if an.is_async and (self.deasync_strip or self.await_map or any(s.word == 'deasync' for s in subs) or True):
-            for q in range(it.head_si, it.kw_si):
-                if src.is_id(q, 'async'):
-                    self.ed.delete(src.t(q).start, src.t(q + 1).start); applied.append('N2')
-        for k in range(it.body_open, it.body_close):
-            if src.is_p(k, '.') and src.is_id(k + 1, 'await'):
-                callee = None
-                if src.is_p(k - 1, ')'):
-                    o = src.match(k - 1)
-                    if src.is_id(o - 1): callee = src.t(o - 1).text
-                if callee in self.deasync_strip:
-                    self.ed.delete(src.t(k).start, src.t(k + 1).end)
-                else:
-                    self.ed.replace(src.t(k).start, src.t(k + 1).end, '.vx_await()')
-                applied.append('N2')
+        self.n2(it, applied)
 
         # ---- signature: named return value
         for s in subs:
@@ -318,6 +304,23 @@ class FileSplicer:
             'loops': nloops, 'kind': d.args[0] if d.word == 'lift' else d.word,
         })
         return attr_txt
+
+    def n2(self, it: Item, applied):
+        src = self.src
+        for q in range(it.head_si, it.kw_si):
+            if src.is_id(q, 'async'):
+                self.ed.delete(src.t(q).start, src.t(q + 1).start); applied.append('N2')
+        for k in range(it.body_open, it.body_close):
+            if src.is_p(k, '.') and src.is_id(k + 1, 'await'):
+                callee = None
+                if src.is_p(k - 1, ')'):
+                    o = src.match(k - 1)
+                    if src.is_id(o - 1): callee = src.t(o - 1).text
+                if callee in self.deasync_strip:
+                    self.ed.delete(src.t(k).start, src.t(k + 1).end)
+                else:
+                    self.ed.replace(src.t(k).start, src.t(k + 1).end, '.vx_await()')
+                applied.append('N2')
 
     def postfix_start(self, k):
         """sig index where the postfix expression ending at sig index k starts"""
@@ -549,6 +552,8 @@ class FileSplicer:
         for d in fs.dirs:
             if d.word in ('rule', 'deasync'):
                 continue
+            if d.word in ('deasync_impl', 'deasync_fn'):
+                continue
             if d.word == 'imports':
                 imports += d.text + '\n'
             elif d.word == 'append':
@@ -650,6 +655,22 @@ class FileSplicer:
                 new = '\nverus!{\n%s%s {\n%s}\n}\n' % (attrs, header, '\n'.join(parts))
                 self.ed.insert(impl.hi, new)
 
+        # N2 on the unlifted members of impls that must compile against the synchronous tokio stand-in
+        for d in fs.dirs:
+            if d.word == 'deasync_impl':
+                key = d.args[0]; ordinal = int(d.args[1]) if len(d.args) > 1 else 0
+                c = [it for it in self.items if it.kind == 'impl' and re.sub(r'\s+', '', it.name) == re.sub(r'\s+', '', key)]
+                if len(c) <= ordinal: raise SpliceError('lost anchor: impl %s in %s' % (key, fs.path))
+                lifted = {id(it) for (it, _, _) in self.lifted_members.get(id(c[ordinal]), [])}
+                n = 0
+                for ch in c[ordinal].children:
+                    if ch.kind == 'fn' and id(ch) not in lifted and ch.body_open >= 0:
+                        ap = []; self.n2(ch, ap); n += len(ap)
+                self.report['file_rules'].append({'file': fs.path, 'rule': 'N2', 'text': 'unlifted members of impl %s (%d edits)' % (key, n)})
+            if d.word == 'deasync_fn':
+                _, it = self.find_fn(d.args[0])
+                ap = []; self.n2(it, ap)
+                self.report['file_rules'].append({'file': fs.path, 'rule': 'N2', 'text': 'unlifted fn %s (%d edits)' % (d.args[0], len(ap))})
         if imports:
             pos = self.items[0].lo if self.items else 0
             self.ed.insert(pos, imports)
@@ -660,6 +681,16 @@ class FileSplicer:
     def ghostfield(self, d: vspec.Dir):
         src = self.src
         sname, decl, init = d.args[0], d.args[1], d.args[2]
+        # optional per-function initialisers: ghostfield S "f: T" "default" fnname "init" fnname "init" ...
+        per_fn = {d.args[i]: d.args[i + 1] for i in range(3, len(d.args) - 1, 2)}
+        fn_ranges = []
+        def walk(items, prefix):
+            for x in items:
+                if x.kind == 'fn' and x.body_open >= 0:
+                    fn_ranges.append((prefix + x.name, x.body_open, x.body_close))
+                elif x.kind == 'impl':
+                    walk(x.children, x.name + '::')
+        walk(self.items, '')
         fname = decl.split(':')[0].strip()
         it = self.find_top('struct', sname)
         if it.body_close < 0: raise SpliceError('unsupported: ghostfield on tuple struct')
@@ -677,7 +708,10 @@ class FileSplicer:
                 c = src.match(k + 1)
                 if src.is_p(c - 1, '.') and src.is_p(c - 2, '.'):
                     continue
-                self.ed.insert(src.t(k + 1).end, ' %s: %s,' % (fname, init)); n += 1
+                ini = init
+                for (fk, a_, b_) in fn_ranges:
+                    if a_ < k < b_ and fk in per_fn: ini = per_fn[fk]
+                self.ed.insert(src.t(k + 1).end, ' %s: %s,' % (fname, ini)); n += 1
         self.report['file_rules'].append({'file': self.fs.path, 'rule': 'N15-ghostfield', 'text': '%s.%s (%d literals)' % (sname, fname, n)})
 
 
